@@ -218,6 +218,7 @@ htp_status_t htp_gzip_decompressor_decompress(htp_decompressor_t *drec1, htp_tx_
         dout.len = GZIP_BUF_SIZE - drec->stream.avail_out;
         dout.is_last = d->is_last;
         if (dout.len > 0) {
+            HTP_VERIF_TRACE(9, d->tx->connp, d->tx, (long) dout.len);
             dout.data = drec->buffer;
             if (drec->super.next != NULL && drec->zlib_initialized) {
                 callback_rc = htp_gzip_decompressor_decompress(drec->super.next, &dout);
